@@ -67,6 +67,41 @@ def _apply_mask(tree, p):
     return True
 
 
+def _expected_ann(ann, wrap):
+    if wrap is None or ann is None:
+        return ann
+    return ast.parse(wrap.format(output_param=ast.unparse(ann))).body[0].value
+
+
+def _new_node_wrong(src, dst, new, wrap):
+    """None when the node now at the addressed position is the input node (same name, annotation through the
+    template, same value for a statement); otherwise what is wrong.  Mirrors C14Spec.expected_node."""
+    d = lambda n: dump_masked(n, set())  # noqa: E731
+    try:
+        if isinstance(dst, ast.arg):
+            if isinstance(src, ast.arg):
+                name, ann = src.arg, _expected_ann(src.annotation, wrap)
+            elif isinstance(src, ast.AnnAssign) and isinstance(src.target, ast.Name):
+                name, ann = src.target.id, _expected_ann(src.annotation, wrap)
+            else:
+                return None
+            if not isinstance(new, ast.arg) or new.arg != name or d(new.annotation) != d(ann):
+                return "the addressed argument is not the input parameter %r with its annotation" % name
+            return None
+        if isinstance(src, ast.AnnAssign):
+            want = ast.AnnAssign(target=src.target, annotation=_expected_ann(src.annotation, wrap), value=src.value,
+                                 simple=src.simple)
+        elif isinstance(src, ast.Assign) and wrap is None:
+            want = src
+        else:
+            return None
+        if new is None or d(new) != d(want):
+            return "the addressed statement is not the input statement"
+        return None
+    except Exception as e:  # noqa
+        return "could not build the expected node: %s" % type(e).__name__
+
+
 def impl_holds(pt):
     """C14 at one point on the real code"""
     ev, isrc, ips, osrc, ops, wrap = pt["args"]
@@ -114,6 +149,14 @@ def impl_holds(pt):
         otree1 = ast.parse(out_after.decode("utf-8"))
     except SyntaxError:
         return False, "the output file no longer parses"
+    # every addressed position carries the node addressed in the input (annotation through the template)
+    if not ev:
+        _, inv1, _k1 = paths(otree1, [])
+        for src, dst in zip(in_targets, out_targets):
+            new = inv1.get(tuple(pos_o[id(dst)]))
+            bad = _new_node_wrong(src, dst, new, wrap)
+            if bad:
+                return False, bad
     for t in out_targets:
         p = pos_o[id(t)]
         if not _apply_mask(otree1, p):
